@@ -22,6 +22,7 @@
 import TypedpyModel.Lemmas.TrustedCtor
 import TypedpyModel.Lemmas.TrustedMap
 import TypedpyModel.Lemmas.Fast
+import TypedpyModel.Lemmas.FastMap
 import TypedpyModel.Lemmas.Mappers
 namespace Typedpy.C10
 open Typedpy
@@ -768,5 +769,57 @@ theorem mapper_inherited_twice_rename (d : List (String × String)) (f : String)
   cases h : lookupLast f d with
   | none => simp [Mappers.applyKey, c10_lookupR_rename, MapperDecl.resolved, mapKey, h]
   | some t => simp [MapperDecl.resolved, mapKey, h]
+
+/-! ## 7. key-renaming mappers: fast ≡ regular -/
+
+/-- **a class's mapper renames that class's own keys only** (at every class level of a tree, for
+    every class, instance and flag): the entries the installed serializer builds with mapper `m` are
+    the entries it builds without a mapper, with the keys renamed by `m` — nothing reaches the nested
+    classes (the regular path lets TO_CAMELCASE / TO_LOWERCASE reach them: finding `fast:mapper-cascade`) -/
+theorem fast_mapper_own_keys (Mp : MapEnv) (NF JK : List String) (sn : Bool) (m : TMapper)
+    (ds attrs : List (String × PyVal)) (fields : List (String × FieldDecl)) :
+    fFields Mp NF JK sn m ds attrs fields
+      = bindE (fFields Mp NF JK sn .none ds attrs fields) fun r => .ok (relabelPairs m r) :=
+  c10_fFields_relabel Mp NF JK sn m ds attrs fields
+
+/-- a mapper that is injective on the class's fields loses no getter (`processed_mapper[mapped_key] =
+    getter` never overwrites): the document has one entry per non-None field -/
+theorem fast_mapper_injective_keeps_all (Mp : MapEnv) (NF JK : List String) (sn : Bool) (m : TMapper)
+    (ds attrs : List (String × PyVal)) (fields : List (String × FieldDecl)) (r : List (PyVal × PyVal))
+    (hn : strNodup (fields.map fun p => mapKey m p.1) = true)
+    (h : fFields Mp NF JK sn m ds attrs fields = .ok r) : keyDedupe m r = r :=
+  c10_keyDedupe_id Mp NF JK sn m ds attrs fields r hn h
+
+/-- **C10 (fast serialization WITH a mapper), proved part**: for every class of the region
+    `fsafeCls` with a simple mapper (NO_MAPPER / TO_CAMELCASE / TO_LOWERCASE / a rename dict) that is
+    injective on its fields and whose nested classes have no mapper (`mfreeFields`), and every
+    instance of the stored shape, the installed `serialize()` returns the regular document of the
+    identically declared mapper-free class with this class's keys renamed by the mapper — the keys
+    `aggregate_serialization_mappers` resolves (`trusted_key_is_regular_key` with `forSer := true`). -/
+theorem fast_mapper_equiv_partial (O : Oracles) (JK : List String) (Mp : MapEnv) (c : ClassOpts)
+    (fields : List (String × FieldDecl)) (ds : List (String × PyVal)) (x : PyVal)
+    (hs : fsafeCls [] (.struct c fields ds) = true) (hw : fwf O (.struct c fields ds) x = true)
+    (hfree : mfreeFields Mp fields = true)
+    (hinj : strNodup (fields.map fun p => mapKey (Mp c.name) p.1) = true) :
+    fastSerialize Mp [] JK false false (.struct c fields ds) x
+      = bindE (serialize O (.struct c fields ds) (canonV (.struct c fields ds) x)) (relabelDoc (Mp c.name)) :=
+  c10_fast_outer_mapper O JK Mp c fields ds x hs hw hfree hinj
+
+/-- non-vacuity: TO_CAMELCASE on a class with a nested mapper-free class and an Array of them -/
+def exFastMapInner : FieldDecl := mkCls "In" ["first_name"] [("first_name", str0), ("age", .integer {})]
+def exFastMapOuter : FieldDecl :=
+  mkCls "Out" ["the_one"] [("the_one", exFastMapInner), ("all_of", .seqOf .list exFastMapInner {}), ("n_n", .integer {})]
+def exFastMapEnv : MapEnv := fun n => if n == "Out" then .camel else .none
+def exFastMapX : PyVal :=
+  .inst "Out" [("the_one", .inst "In" [("first_name", .str "a")]), ("all_of", .list [.inst "In" [("first_name", .str "b"), ("age", .int 1)]]),
+               ("n_n", .int 2)]
+theorem fast_mapper_example :
+    fsafeCls [] exFastMapOuter = true ∧ fwf exO exFastMapOuter exFastMapX = true
+    ∧ (match exFastMapOuter with | .struct _ fs _ => mfreeFields exFastMapEnv fs | _ => false) = true
+    ∧ docHas "theOne" (fun _ => true) (fastSerialize exFastMapEnv [] [] false false exFastMapOuter exFastMapX) = true
+    ∧ docHas "allOf" (fun _ => true) (fastSerialize exFastMapEnv [] [] false false exFastMapOuter exFastMapX) = true
+    ∧ docHas "nN" (fun _ => true) (fastSerialize exFastMapEnv [] [] false false exFastMapOuter exFastMapX) = true
+    ∧ docHas "n_n" (fun _ => true) (fastSerialize exFastMapEnv [] [] false false exFastMapOuter exFastMapX) = false := by
+  decide
 
 end Typedpy.C10
